@@ -8,9 +8,10 @@ cd $d || exit 2
 git checkout -q -- . ; git apply _seed/patch.diff || { echo "$name: patch does not apply"; exit 2; }
 a=$(go build ./... 2>&1 && go test -vet=off -count=1 ./... 2>&1 | grep -v 'no test files' | grep -cv '^ok')
 cp _seed/demo_test.go $pk/zz_seed_demo_test.go
-b=$(go test -vet=off -count=1 -run 'Seed' ./$pk/ 2>&1 | tail -1 | cut -c1-60)
+b=$(go test -vet=off -count=1 -run 'Seed|C[0-9][0-9]' ./$pk/ 2>&1 | tail -1 | cut -c1-60)
 git apply -R _seed/patch.diff
-c=$(go test -vet=off -count=1 -run 'Seed' ./$pk/ 2>&1 | tail -1 | cut -c1-60)
+c=$(go test -vet=off -count=1 -run 'Seed|C[0-9][0-9]' ./$pk/ 2>&1 | tail -1 | cut -c1-60)
 rm -f $pk/zz_seed_demo_test.go
 echo "$name: (a) failing-packages=$a (b) with-change: $b (c) without: $c"
 mkdir -p /verif/seeded/$name && cp _seed/* /verif/seeded/$name/
+git rev-parse HEAD > /verif/seeded/$name/base.txt
